@@ -21,7 +21,10 @@ RULE = ('serial: stores built by parsing AND by programmatic binding (nested val
         'differing only in letter case, opaque objects, objects whose repr parses to something unequal, macros bound '
         'to non-literals, values WITHOUT a literal form that compare equal to / hash like a bound literal of another type '
         '(IntEnum / StrEnum members, Decimal, Fraction, complex, str / int / float subclasses with their own repr, tuples of '
-        'those) bound before and after the literal, with config_str() calls in between), recorded imports in all forms with colliding bound names, max_line_length in '
+        'those) bound before and after the literal, with config_str() calls in between; bindings of Gin\'s own ordinary configurable '
+        'gin.singleton (key/gin.singleton.constructor = @fn, any scope incl. the root, parsed and programmatic, literal and '
+        'non-literal constructors, referenced as @key/gin.singleton()) next to user configurables named singleton / macro / '
+        'constant or living in a module called gin), recorded imports in all forms with colliding bound names, max_line_length in '
         '{indent+1 .. 120}, continuation_indent in {0,2,4,8}. Independent predicates: the text parses in a fresh gin; '
         're-parsing restores every representable binding (equal value, same type) and re-serialising gives the '
         'identical text; every bound value of a builtin literal type (type-exact, at every depth) is restored with the same '
@@ -40,6 +43,13 @@ SELS = ['m.f', 'n.g', 'pkg.sub.h', 'k', 'n.sub.h', 'm.Foo', 'm.foo']
 MODS = ['alpha', 'beta.gamma', 'pkg.sub', 'zeta', 'other.alpha', 'Zed', 'Zed.sub', '_under']
 # classes with registered methods: two same-named classes in different modules sharing a method name, one unique
 CLASSES = [['cluster.local', 'Worker', ['run']], ['cluster.remote', 'Worker', ['run', 'stop']], ['m', 'Solo', ['go']]]
+# Gin registers three configurables of its own under the module `gin`: gin.macro (a scoped binding of it is a macro, shown in
+# the "Macros" block), gin.constant (never bound) and gin.singleton, an ORDINARY configurable whose binding
+# `key/gin.singleton.constructor = @fn` declares a shared object and must survive the round trip like any other binding.
+# User configurables may share the helpers' names, or the module name, without being any of them.
+GIN_OWN = 'gin.singleton'
+HELPER_SELS = ['lib.singleton', 'lib.macro', 'lib.constant', 'gin.extra', 'ginx.singleton']
+SINGLETON_KEYS = ['shared', 'other/sub', 's1', 's1/s2', 'mm', '', '']
 
 
 def class_sels(classes):
@@ -371,6 +381,18 @@ class SerialEngine(Engine):
         dict(base, ops=[['bind', 'f.a', ['eqv', 'intplain', ['i', 3]]], ['bind', 'f.b', ['i', 3]], ['bind', 'g.a', ['eqv', 'strplain', ['s', 'run']]],
                         ['bind', 'g.b', ['l', [['eqv', 'floatplain', ['float', '1.5']], ['i', 1]]]],
                         ['bind', 'g.c', ['d', [[['eqv', 'strplain', ['s', 'k']], ['i', 1]]]]], ['bind', 'g.zeta', ['i', 1]]]),
+        # Gin's own ordinary configurable gin.singleton: its bindings are part of the configuration (C06-m11)
+        dict(base, ops=[['pbind', 'LIMIT', ['i', 3]], ['pbind', 'shared/gin.singleton.constructor', ['ref', [], 'f', False]],
+                        ['pbind', 'other/sub/gin.singleton.constructor', ['ref', [], 'n.g', False]], ['pbind', 'f.a', ['s', 'x']],
+                        ['pbind', 'g.a', ['ref', ['shared'], 'gin.singleton', True]],
+                        ['pbind', 'g.b', ['l', [['ref', ['shared'], 'gin.singleton', True], ['ref', ['other', 'sub'], 'gin.singleton', True],
+                                                ['macro', 'LIMIT']]]]]),
+        dict(base, sels=base['sels'] + ['lib.singleton', 'lib.macro', 'gin.extra'],
+             ops=[['bind', 'gin.singleton.constructor', ['ref', [], 'm.f', False]], ['bind', 's1/lib.singleton.a', ['ref', [], 'gin.singleton', True]],
+                  ['pbind', 's1/s2/gin.singleton.constructor', ['ref', ['s1'], 'lib.singleton', False]], ['pbind', 'mm', ['i', 1]],
+                  ['pbind', 'lib.macro.a', ['l', [['macro', 'mm'], ['ref', ['s1', 's2'], 'gin.singleton', True]]]], ['pbind', 's1/extra.b', ['i', 3]],
+                  ['bind', 'mm/gin.singleton.constructor', ['ref', [], 'lib.macro', False]], ['bind', 's1/gin.singleton.constructor', ['obj', 'o1']]],
+             maxlen=30, indent=2),
     ]
 
   def gen(self, rng, tier):
@@ -438,8 +460,43 @@ class SerialEngine(Engine):
       if v[0] != 'macro':
         ops.insert(rng.randint(0, len(ops)), ['bind', 'gin.macro.value', v])
     indent = rng.choice([0, 2, 4, 8])
-    return {'sels': sels, 'classes': classes, 'modules': MODS, 'ops': ops, 'maxlen': rng.choice([indent + 1, indent + 5, 20, 40, 80, 120]),
+    case = {'sels': sels, 'classes': classes, 'modules': MODS, 'ops': ops, 'maxlen': rng.choice([indent + 1, indent + 5, 20, 40, 80, 120]),
             'indent': indent}
+    if rng.random() < 0.2:
+      self.add_gin_own(rng, case, regs, bind_op)
+    return case
+
+  def add_gin_own(self, rng, case, regs, bind_op):
+    """bindings of gin.singleton (any scope, constructor = a reference mostly, now and then any other value), references to the
+    shared objects, and user configurables that share a helper's name or the module name `gin`"""
+    extra = rng.sample(HELPER_SELS, rng.choice([0, 0, 1, 2, 3]))
+    case['sels'] = case['sels'] + extra
+    regs = regs + [{'sel': s} for s in extra]
+    own = ginm.spellings(GIN_OWN, regs)
+    fns = [r['sel'] for r in regs if r['sel'] not in set(method_sels(case['classes']))]
+    new, keys = [], rng.sample(SINGLETON_KEYS, rng.randint(1, 3))
+    for key in keys:
+      r = rng.random()
+      if r < 0.7:
+        sel = rng.choice(fns)
+        v = ['ref', [], rng.choice(ginm.spellings(sel, regs)), False]
+      elif r < 0.85:
+        v = ['obj', 'o1']              # gin.bind_parameter('key/gin.singleton.constructor', a_python_callable)
+      else:
+        v = gen_value(rng, regs, 1)
+      new.append(bind_op((key + '/' if key else '') + rng.choice(own) + '.constructor', v))
+    for key in keys:
+      if rng.random() < 0.6:         # the shared object is used somewhere
+        ref = ['ref', key.split('/') if key else [], rng.choice(own), True]
+        v = rng.choice([ref, ['l', [ref, ['macro', 'mm']]], ['d', [[['s', 'k'], ref]]]])
+        sel = rng.choice(fns)
+        new.append(['pbind', '/'.join(ginm.gen_scope(rng, 1) + [rng.choice(ginm.spellings(sel, regs)) + '.' + rng.choice('abc')]), v])
+    for sel in extra:
+      for _ in range(rng.randint(0, 2)):
+        new.append(bind_op('/'.join(ginm.gen_scope(rng, 2) + [rng.choice(ginm.spellings(sel, regs)) + '.' + rng.choice(['a', 'b', 'zeta'])]),
+                           gen_value(rng, regs + [{'sel': GIN_OWN}], 1)))
+    for op in new:
+      case['ops'].insert(rng.randint(0, len(case['ops'])), op)
 
   def shrink(self, case):
     for i in range(len(case['ops'])):
@@ -600,7 +657,8 @@ class SerialEngine(Engine):
     scoped_q = any('/' in l and l.count('.') >= 2 for l in text.split('\n') if l.startswith('# Parameters for '))
     return {'obs': obs, 'fails': fails[:4], 'nontrivial': wraps or (scoped_q and omitted >= 1),
             'tags': ['L%d' % case['maxlen'], 'omitted' if omitted else 'all-representable'] +
-                    (['equal-twin'] if "'eqv'" in repr(case['ops']) else []) + (['serialised-midway'] if ['cstr'] in case['ops'] else [])}
+                    (['equal-twin'] if "'eqv'" in repr(case['ops']) else []) + (['serialised-midway'] if ['cstr'] in case['ops'] else []) +
+                    (['gin-singleton-bound'] if any(k[1] == GIN_OWN for k in store) else [])}
 
 
 # ---------------------------------------------------------------- the VALUE side: repr / pprint texts read back
